@@ -317,21 +317,27 @@ static void part_search(int maxk)
             needles.push_back("zz");
             struct Place { const Ports *root; Query q; };
             std::vector<Place> places = {{T, {"", 0}}, {T, {"/", 0}}, {wrap, {"/s/", 0}}, {wrap, {"/s", 0}}, {wrap, {"s/", 0}}, {wrap, {"/leaf", 1}}, {wrap, {"/nope", 2}}};
-            const size_t max_ports = (size_t)std::max(k, 3) + 2, max_args = max_ports * 2, max_types = max_args + 1;
+            // capacities: generous (max_ports = table size + 2) and, second pass, exactly what the result needs
+            // (the documentation allows max_ports == number of children); the buffers are pre-filled with garbage
+            for(int exact = 0; exact < 2; ++exact)
             for(size_t pi = 0; pi < places.size(); ++pi) {
                 const Place &pl = places[pi];
+                const size_t nchildren = pl.q.kind == 0 ? table.size() : pl.q.kind == 1 ? 1 : 0;
+                const size_t max_ports_q[2] = {exact ? std::max<size_t>(nchildren, 1) : (size_t)std::max(k, 3) + 2, exact ? std::max<size_t>(nchildren, 1) : (size_t)std::max(k, 3) + 2};
                 std::vector<std::string> nds = needles;
                 if(pl.q.kind == 1) nds = {"", "l", "leaf:i", "leaf:ix", "zz"};
                 if(pl.q.kind == 2) nds = {"", "a"};
                 for(size_t ni = 0; ni < nds.size(); ++ni) for(int oi = 0; oi < 3; ++oi) for(int rq = 0; rq < 2; ++rq) {
                     const Opt o = oi == 0 ? Opt::unmodified : oi == 1 ? Opt::sorted : Opt::sorted_and_unique_prefix;
-                    std::string cid = tprefix + std::to_string(pi) + "|" + std::to_string(ni) + "|" + std::to_string(oi) + "|" + std::to_string(rq);
+                    // array form: the caller provides room for the two query strings as well
+                    const size_t max_ports = max_ports_q[rq], max_args = max_ports * 2 + (exact && rq ? 2 : 0), max_types = max_args + 1;
+                    std::string cid = tprefix + std::to_string(pi) + "|" + std::to_string(ni) + "|" + std::to_string(oi) + "|" + std::to_string(rq) + (exact ? "|exact" : "");
                     if(!vp::want(cid)) continue;
                     vp::current_case() = cid;
                     vp::eval(); vp::state();
                     const std::string &loc = pl.q.loc, &needle = nds[ni];
                     const std::vector<Child> want = pl.q.kind == 2 ? std::vector<Child>() : ref_search(pl.q.kind == 0 ? table : leaf_table, needle, o);
-                    const std::string shape = std::string(opt_name(o)) + "," + (rq ? "with-query" : "no-query") + "," + loc_class(loc) + (pl.q.kind == 1 ? ",leaf" : pl.q.kind == 2 ? ",absent" : "");
+                    const std::string shape = std::string(opt_name(o)) + "," + (rq ? "with-query" : "no-query") + "," + loc_class(loc) + (pl.q.kind == 1 ? ",leaf" : pl.q.kind == 2 ? ",absent" : "") + (exact ? ",exact-capacity" : "");
                     const std::string ctx = "table " + tdesc + " location '" + loc + "' needle '" + needle + "' " + opt_name(o) + (rq ? " reply_with_query" : "");
                     if(want.size() > 1) vp::nontrivial(vp::fnv(cid));
 
